@@ -59,7 +59,7 @@ PROPS = {
               assumptions=['determinism is observed, not proved: bounded behaviours x the listed modes', 'the clause Muxer<W>: Send for all W: Send (+ Sync) is decided by rustc on harness/src/bin/sendwitness.rs, not by TLC']),
               pre=send_witness),
 
-    'C18': _p(lambda t: ['meta', 'layout', 'dates'],
+    'C18': _p(lambda t: ['meta', 'layout', 'dates', 'metalayout'],
               rule='a case is a metadata value (title bytes / Unix day + second of day / language code / presence combination) on a muxer run, each also compared with the metadata-free run of the same history; non-trivial when it differs from the empty metadata',
               assumptions=['dates are judged for 1970-01-01 .. 9999-12-31; larger creation times only for termination (C12)', 'the closed-form Civil() of Meta.tla is itself checked by TLC against the counting definition (MCMeta)', 'malformed language codes are not judged (only absence of panics)']),
 
@@ -91,18 +91,18 @@ PROPS = {
               rule='a case is a (state-building prefix, probe call) history enumerated by TLC from MCMuxide (scenarios contract/reject/finish); non-trivial when some call is rejected or >= 2 calls are accepted'),
     'C05': _p(lambda t: ['reject', 'frag', 'bound'],
               rule='a case is a history pair (H, H minus its rejected calls), both executed and compared; non-trivial when H contains a rejected call followed by an accepted call or a finish'),
-    'C06': _p(lambda t: ['finish', 'av', 'contract', 'sink'],
+    'C06': _p(lambda t: ['finish', 'av', 'contract', 'sink', 'reject', 'metalayout'],
               rule='a case is a history with >= 1 finish attempt and >= 1 other call'),
 
     'C01': _p(lambda t: ['av', 'adts', 'layout', 'metalayout'],
               rule='a case is a (configuration, call sequence) pair enumerated by TLC from MCMuxide (scenario av) or drawn by the seeded generator; distinct by input hash; non-trivial when some track holds >= 2 accepted samples'),
-    'C03': _p(lambda t: ['av'] if t == 'quick' else ['av', 'long'],
+    'C03': _p(lambda t: ['av', 'layout', 'metalayout', 'bound'] if t == 'quick' else ['av', 'layout', 'metalayout', 'bound', 'long'],
               rule='as C01: distinct (configuration, call sequence) pairs with >= 2 accepted samples in some track'),
     'C08': _p(lambda t: ['av', 'metalayout'],
               rule='every case is executed with fast start on and off and the two outputs compared; non-trivial when some track holds >= 2 samples'),
-    'C09': _p(lambda t: ['av', 'reject'],
+    'C09': _p(lambda t: ['av', 'reject', 'layout', 'metalayout'],
               rule='distinct (configuration, call sequence) pairs with >= 1 accepted sample in each track'),
-    'C15': _p(lambda t: ['av'],
+    'C15': _p(lambda t: ['av', 'layout', 'metalayout'],
               rule='distinct (configuration, call sequence) pairs with >= 1 accepted sample in each track'),
 }
 
